@@ -1098,7 +1098,7 @@ struct Digit {
                 if (fraction_length > precision) {
                     index += SizeT(fraction_length - (precision + SizeT{1}));
 
-                    bool above_half = (round_up | (diff != 0));
+                    bool above_half = round_up;
 
                     for (SizeT below = started_at; (below < index) && !above_half; ++below) {
                         // Digits under the rounding digit that are not zero put the value above the half.
